@@ -70,6 +70,10 @@ def run(tier, seed, replay=None):
         o.update(DIAG_VECTORS[dk[hp % len(dk)]])
         jobs.append({"id": len(jobs), "src": text, "opts": o, "want": [],
                      "_pid": pid + "+" + dk[hp % len(dk)]})
+    for (pid, name, text, opts) in universe.option_points(tier, seed):
+        jobs.append({"id": len(jobs), "src": text, "opts": opts, "want": [], "_pid": pid})
+        jobs.append({"id": len(jobs), "src": universe.dirty(text, core.fnv(pid.encode())),
+                     "opts": dict(opts, max_width=40), "want": [], "_pid": pid + ":dirty40"})
     for i, text in enumerate(NON_ASCII):
         for d in dk:
             for w in (20, 40, 100):
